@@ -13,6 +13,16 @@ import Operon.Model.Wiring
   mod2 N I … O … C …                        second_diagram.add_module(fresh spec)
   capsmut K sub|add|clear c …               the caller mutates the set returned by the last caps (K=1) / caps2 (K=2)
   speccaps N                                the capabilities attribute of module N's spec
+  handler N retobj KIND entries…            the handler returns something that is not a dict: a falsy value (zero, emptystr,
+                                            emptylist, emptytuple, false, emptyset: `or {}` makes it `{}`), another mapping
+                                            (userdict, proxy, odict: behaves like a dict), or a truthy non-mapping (list,
+                                            tuple, str, int, set, gen: `.keys()` raises AttributeError)
+  handler N reenter entries…                the handler calls execute() of the SAME executor (same arguments) once while it
+                                            runs, then answers like ret: the inner run is an independent run with the same
+                                            outcome (`inner=[…]`), the outer run is undisturbed
+  handler N mut del|add|relabel|clear entries…   the handler mutates the dict it is given, then answers like ret; the
+                                            report's copy of ITS OWN inputs is taken afterwards and is printed as `?`
+  setin|setout N P dt il, delin|delout N P, addcap|delcap N c     in-place edit of the registered ModuleSpec's dicts / set
   flow sdt sil ddt dil                      can_flow_to / require_flow_to
   cout|cin raw k pdt pil | typed dt il k pdt pil     _coerce_output / _coerce_input
 -/
@@ -20,12 +30,14 @@ open Operon Operon.Proto Operon.Wiring
 
 inductive Script where
   | raise (cls : String)
-  | ret (outs : List (Nat × Val))
+  | ret (outs : List (Nat × Val)) (reenter : Bool := false) (mutates : Bool := false)
+  | nondict
 
 structure DSt where
   d : Diagram := {}
   d2 : Diagram := {}      -- a second diagram that may share ModuleSpec objects with the first
   hs : List (Nat × Script) := []
+  shared : List Nat := []  -- modules whose ModuleSpec OBJECT is also registered in the second diagram
   ext : List (Nat × List (Nat × Val)) := []
 
 def colon (s : String) : List Nat := (s.splitOn ":").map (natD ·)
@@ -53,7 +65,8 @@ def parseScriptEntry (t : String) : Option (Nat × Val) :=
 /-- the scripted handler: payloads depend on the inputs so that mis-routed values are visible -/
 def mkHandler : Script → Handler
   | .raise _ => fun _ => .raise
-  | .ret outs => fun ins =>
+  | .nondict => fun _ => .nondict
+  | .ret outs _ _ => fun ins =>
     let s := (ins.map (·.2.payload)).foldl (· + ·) 0
     .ret (outs.map fun (p, v) =>
       (p, match v with
@@ -72,6 +85,7 @@ def showErr (e : Err) : String :=
   if e.isWiringError then "raise:WiringError"
   else match e with
     | .keyError => "raise:KeyError"
+    | .attributeError => "raise:AttributeError"
     | .handlerRaised => "raise:handler"
     | _ => "model-out-of-fuel"
 
@@ -86,6 +100,7 @@ def errTag : Err → String
   | .missingOutput => "missingOutput" | .wireType => "wireType" | .wireIntegrity => "wireIntegrity"
   | .multipleValues => "multipleValues" | .cannotResolve => "cannotResolve"
   | .keyError => "keyError" | .handlerRaised => "handlerRaised" | .outOfFuel => "outOfFuel"
+  | .attributeError => "attributeError"
 
 def showSemi (xs : List String) : String := "[" ++ ";".intercalate xs ++ "]"
 
@@ -100,6 +115,14 @@ def parseVal : List String → Option (Val × List String)
 def showCoerce : Except Err TV → String
   | .ok t => s!"ok {t.dt}/{t.il}/{t.payload}"
   | .error e => showErr e ++ " ## " ++ errTag e
+
+/-- in-place edit of module `n`'s spec; the spec object may be registered in the second diagram as well (one
+    object, two dicts pointing at it) -/
+def portEdit (st : DSt) (op n : String) (e : SpecEdit) : DSt × String :=
+  if (st.d.findMod (natD n)).isNone then (st, "bad-op")
+  else ({ st with d := st.d.editModule (natD n) e,
+                  d2 := if st.shared.contains (natD n) then st.d2.editModule (natD n) e else st.d2 },
+        s!"ok ## edit:{op}")
 
 def step (st : DSt) (toks : List String) : DSt × String :=
   match toks with
@@ -119,13 +142,29 @@ def step (st : DSt) (toks : List String) : DSt × String :=
     -- xraise CLS MSG MODE SIG entries…: raises CLS (at the first invocation of an execute() or always; with the
     -- real code a handler is invoked at most once per execute(), so both raise); retd / retv: like ret, other
     -- call signatures
-    let sc : Script := match kind with
-      | "raise" => .raise "RuntimeError"
-      | "xraise" => .raise (rest.headD "RuntimeError")
-      | "retnone" => .ret []
-      | _ => .ret (rest.filterMap parseScriptEntry)
-    if (st.d.findMod (natD n)).isNone then (st, showErr .unknownModule ++ " ## handler:unknownModule")
-    else ({ st with hs := setKey (natD n) sc st.hs }, s!"ok ## handler:{kind}")
+    let falsy := ["zero", "emptystr", "emptylist", "emptytuple", "false", "emptyset"]
+    let mappings := ["userdict", "proxy", "odict"]
+    let sc : Option Script := match kind with
+      | "raise" => some (.raise "RuntimeError")
+      | "xraise" => some (.raise (rest.headD "RuntimeError"))
+      | "retnone" => some (.ret [])
+      | "retobj" =>
+        let k := rest.headD ""
+        if falsy.contains k then some (.ret [])
+        else if mappings.contains k then some (.ret ((rest.drop 1).filterMap parseScriptEntry))
+        else if ["list", "tuple", "str", "int", "set", "gen"].contains k then some .nondict
+        else none
+      | "reenter" => some (.ret (rest.filterMap parseScriptEntry) true false)
+      | "mut" =>
+        if ["del", "add", "relabel", "clear"].contains (rest.headD "") then
+          some (.ret ((rest.drop 1).filterMap parseScriptEntry) false true)
+        else none
+      | _ => some (.ret (rest.filterMap parseScriptEntry))
+    match sc with
+    | none => (st, "bad-op")
+    | some sc =>
+      if (st.d.findMod (natD n)).isNone then (st, showErr .unknownModule ++ " ## handler:unknownModule")
+      else ({ st with hs := setKey (natD n) sc st.hs }, s!"ok ## handler:{kind}")
   | "ext" :: m :: p :: rest =>
     match parseVal rest with
     | some (v, []) =>
@@ -134,10 +173,15 @@ def step (st : DSt) (toks : List String) : DSt × String :=
     | _ => (st, "bad-op")
   | ["exec", e] =>
     let r := execute st.d (handlerTable st.hs) st.ext (e == "d" || boolOf e)   -- "d": the default, True
+    let isMut (n : Nat) : Bool := match st.hs.lookup n with | some (.ret _ _ true) => true | _ => false
+    let isRe (n : Nat) : Bool := match st.hs.lookup n with | some (.ret _ true _) => true | _ => false
     match r.out with
     | .ok recs =>
-      (st, joinSp ["ok", "order=" ++ showList (recs.map (toString ·.name)), "calls=" ++ showCalls r.calls,
-        "mods=" ++ showSemi (recs.map fun r => s!"{r.name}<{showTVs r.inputs}|{showTVs r.outputs}>")]
+      let inner := (r.calls.filter (isRe ·.name)).map fun _ => "ok"
+      (st, joinSp (["ok", "order=" ++ showList (recs.map (toString ·.name)), "calls=" ++ showCalls r.calls,
+        "mods=" ++ showSemi (recs.map fun r =>
+          s!"{r.name}<{if isMut r.name then "?" else showTVs r.inputs}|{showTVs r.outputs}>")]
+        ++ (if inner.isEmpty then [] else ["inner=" ++ showSemi inner]))
         ++ " ## exec:ok")
     | .error e =>
       -- the exception of a raising handler is the one of the last invocation
@@ -149,7 +193,9 @@ def step (st : DSt) (toks : List String) : DSt × String :=
                         | _ => showErr e)
            | none => showErr e)
         | _ => showErr e
-      (st, joinSp [shown, "calls=" ++ showCalls r.calls] ++ " ## exec:" ++ errTag e)
+      let inner := (r.calls.filter (isRe ·.name)).map fun _ => shown
+      (st, joinSp ([shown, "calls=" ++ showCalls r.calls]
+        ++ (if inner.isEmpty then [] else ["inner=" ++ showSemi inner])) ++ " ## exec:" ++ errTag e)
   | ["caps"] => (st, showList ((sortNat st.d.requiredCaps).map toString) ++ " ## caps")
   | ["caps2"] => (st, showList ((sortNat st.d2.requiredCaps).map toString) ++ " ## caps2")
   | "capsmut" :: _ => (st, "ok ## capsmut")     -- the caller mutates the set it was handed: no effect on anything
@@ -157,12 +203,24 @@ def step (st : DSt) (toks : List String) : DSt × String :=
     match st.d.findMod (natD n) with
     | some m => (st, showList ((sortNat m.caps.eraseDups).map toString) ++ " ## speccaps")
     | none => (st, "bad-op")
+  | ["setin", n, p, dt, il] => portEdit st "setin" n (.setIn (natD p) ⟨natD dt, natD il⟩)
+  | ["setout", n, p, dt, il] => portEdit st "setout" n (.setOut (natD p) ⟨natD dt, natD il⟩)
+  | ["delin", n, x] =>
+    match st.d.findMod (natD n) with
+    | some m => if hasKey (natD x) m.inputs then portEdit st "delin" n (.delIn (natD x)) else (st, "bad-op")
+    | none => (st, "bad-op")
+  | ["delout", n, x] =>
+    match st.d.findMod (natD n) with
+    | some m => if hasKey (natD x) m.outputs then portEdit st "delout" n (.delOut (natD x)) else (st, "bad-op")
+    | none => (st, "bad-op")
+  | ["addcap", n, x] => portEdit st "addcap" n (.addCap (natD x))
+  | ["delcap", n, x] => portEdit st "delcap" n (.delCap (natD x))
   | ["share", n] =>
     match st.d.findMod (natD n) with
     | none => (st, "bad-op")
     | some m =>
       match st.d2.addModule m with
-      | .ok d2 => ({ st with d2 := d2 }, "ok ## share:ok")
+      | .ok d2 => ({ st with d2 := d2, shared := natD n :: st.shared }, "ok ## share:ok")
       | .error e => (st, showErr e ++ " ## share:" ++ errTag e)
   | "mod2" :: n :: rest =>
     let (ins, outs, cs) := sections rest
